@@ -112,6 +112,17 @@ def run_impl(case):
     out["f012"] = numpy.asarray(g.mat_asformat("{0,1,2}")).tolist()
     out["fm101"] = numpy.asarray(g.mat_asformat("{-1,0,1}")).tolist()
     out["fm1m1"] = _hx(g.mat_asformat("{-1,m,1}"))
+    # requested output dtypes: every statistic that takes a dtype argument, with non-default dtypes
+    dv = {}
+    for name, dts in (("tacount", ["int8", "float64"]), ("tafreq", ["float32"]), ("acount", ["int32", "float64"]),
+                      ("afreq", ["float32"]), ("afixed", ["int64", "int8", "float64", "bool"]),
+                      ("apoly", ["int64", "int8", "float64", "bool"]), ("maf", ["float32"]), ("meh", ["float32"]),
+                      ("gtcount", ["int32", "float64"]), ("gtfreq", ["float32"])):
+        for dt in dts:
+            r = getattr(g, name)(dtype=dt)
+            a = numpy.asarray(r)
+            dv["%s:%s" % (name, dt)] = {"dtype": str(a.dtype), "val": _hx(a.astype(float))}
+    out["dtypes"] = dv
     out["unchanged"] = bool(numpy.array_equal(g.mat, before))
     if case["kind"] == "phased":
         # the unphased projection of the same data must give identical answers
@@ -164,6 +175,17 @@ def emit_case(case, out):
         parts.append("zll_eqb (fmt_012 %s) %s" % (T, E.lst2(out["f012"], Z)))
         parts.append("zll_eqb (fmt_m101 %s) %s" % (T, E.lst2(out["fm101"], Z)))
         parts.append("qclose_ll %s (fmt_m1m1 %d %s)" % (E.lst2(out["fm1m1"], q), p, T))
+    b2z = "(map (fun b : bool => if b then 1%Z else 0%Z))"
+    zq = lambda h: Z(int(_fh(h)))
+    Mx = E.lst2(mat, Z) if case["kind"] == "unphased" else "(tacount_ph %d %d %s)" % (len(mat[0]), len(mat[0][0]), E.lst3(mat, Z))
+    pl = ploidy if case["kind"] == "unphased" else len(mat)
+    pp = len(mat[0]) if case["kind"] == "unphased" else len(mat[0][0])
+    for dt in ("int64", "int8", "float64", "bool"):
+        parts.append("zl_eqb (%s (afixed %s %d %s)) %s" % (b2z, Z(pl), pp, Mx, E.lst(out["dtypes"]["afixed:" + dt]["val"], zq)))
+        parts.append("zl_eqb (%s (apoly %s %d %s)) %s" % (b2z, Z(pl), pp, Mx, E.lst(out["dtypes"]["apoly:" + dt]["val"], zq)))
+    for dt in ("int32", "float64"):
+        parts.append("zl_eqb (acount %d %s) %s" % (pp, Mx, E.lst(out["dtypes"]["acount:" + dt]["val"], zq)))
+        parts.append("zll_eqb (gtcount %d %d %s) %s" % (pl, pp, Mx, E.lst2(out["dtypes"]["gtcount:" + dt]["val"], zq)))
     return "(" + "\n   && ".join(parts) + ")"
 
 def pred(case, out):
@@ -219,6 +241,26 @@ def pred(case, out):
         for i in range(n):
             want = mean if sh[i, j] == 0 else Fraction(int(sh[i, j]))
             if abs(Fraction(_fh(out["fm1m1"][i][j])) - want) > Fraction(1, 2 ** 40): bad.append("coding {-1,m,1} [%d][%d]" % (i, j))
+    # requested dtypes: value = definition cast to the dtype, dtype as requested
+    f32 = lambda x: float(numpy.float32(x))
+    fixed = [cj in (0, N) for cj in c]
+    want = {"tacount": dos.astype(float).tolist(), "acount": [float(x) for x in c],
+            "afixed": [1.0 if f else 0.0 for f in fixed], "apoly": [0.0 if f else 1.0 for f in fixed],
+            "gtcount": [[float((dos[:, j] == i).sum()) for j in range(p)] for i in range(ploidy + 1)],
+            "afreq": [f32(cj / N) for cj in c], "maf": [f32(min(cj / N, 1.0 - cj / N)) for cj in c],
+            "tafreq": [[f32(int(dos[i, j]) / ploidy) for j in range(p)] for i in range(n)],
+            "gtfreq": [[f32(int((dos[:, j] == i).sum()) / n) for j in range(p)] for i in range(ploidy + 1)]}
+    def close(a, b, tol):
+        a = numpy.asarray(a, dtype=float); b = numpy.asarray(b, dtype=float)
+        return a.shape == b.shape and bool(numpy.all(numpy.abs(a - b) <= tol))
+    for key, rec in out.get("dtypes", {}).items():
+        name, dt = key.split(":")
+        if rec["dtype"] != str(numpy.dtype(dt)): bad.append("%s(dtype=%s) returned dtype %s" % (name, dt, rec["dtype"]))
+        got = numpy.vectorize(_fh)(numpy.array(rec["val"], dtype=object)).astype(float) if numpy.size(rec["val"]) else numpy.array(rec["val"], dtype=float)
+        if name == "meh":
+            if abs(float(got) - f32(float(meh))) > 1e-6: bad.append("meh(dtype=%s) value" % dt)
+        elif not close(got, want[name], 1e-6 if dt == "float32" else 0.0):
+            bad.append("%s(dtype=%s) is not the definition cast to %s" % (name, dt, dt))
     if not out["unchanged"]: bad.append("matrix mutated by a summary statistic")
     if "proj" in out:
         pj = out["proj"]
